@@ -41,6 +41,15 @@ def arg_named(t, name):
     return isinstance(t, tuple) and t[0] == "arg" and t[2] == name
 
 
+def peel_opt(t):
+    """strip value-preserving Option adaptors: x.copied() / x.cloned() / x.as_ref() / x.as_deref()"""
+    t = strip_refs(t)
+    while isinstance(t, tuple) and t[0] == "call" and t[1].split("::")[-1] in ("copied", "cloned", "as_ref", "as_deref", "as_mut") \
+            and t[1].startswith("Option<") and t[3]:
+        t = strip_refs(t[3][0])
+    return t
+
+
 def valuation(p, matchers):
     """pred name -> bool for the atoms of a path; ('unresolved', term) entries for bool atoms no matcher recognises"""
     val = {}
@@ -488,10 +497,21 @@ def header_writer(an, rep):
                 names = [n for _, n in c[2]]
                 if "FieldMadeTransient" in names:
                     variant = walk.atom_variant(a)
-                elif is_call(c[1], "HashMap<K, V, S, A>::get") and self_field(strip_refs(c[1])[3][0], "field_indices"):
+                elif peel_opt(c[1])[0] == "call" and peel_opt(c[1])[1].split("::")[-1] in ("get", "get_key_value") and \
+                        self_field(peel_opt(c[1])[3][0], "field_indices"):
                     has_pos = walk.atom_variant(a) == "Some"
-            elif is_call(c, "HashSet<T, S, A>::contains") and arg_named(c[3][0], "removed_fields"):
-                in_removed = guards.truth(a[2])
+            else:
+                e = c
+                tv = guards.truth(a[2])
+                while isinstance(e, tuple) and e[0] == "un" and e[1] == "Not":
+                    e = e[2]
+                    tv = (not tv) if tv is not None else None
+                if isinstance(e, tuple) and e[0] == "call" and e[1].split("::")[-1] in ("contains", "contains_key") and \
+                        "removed_fields" in show(e[3][0]):
+                    in_removed = tv
+                elif isinstance(e, tuple) and e[0] == "call" and e[1].split("::")[-1] in ("contains_key",) and \
+                        self_field(e[3][0], "field_indices"):
+                    has_pos = tv
         if variant is None:
             continue
         kind, what = outcome_of(p)
@@ -512,7 +532,11 @@ def header_writer(an, rep):
             continue
         seen[row] = seen.get(row, 0) + 1
         if variant in ("InitialVersion", "FieldAdded"):
-            okk = sv == "FieldAddedToNewChunk" and "try_into" in show(stepv[4][0]) and "buffers" in show(stepv[4][0])
+            sz = stepv[4][0] if stepv else ("unk",)
+            checked = any(x[0] == "call" and x[1].endswith(("::try_into", "::try_from")) for x in mir.walk_expr(sz))
+            from_buf = any(x[0] == "field" and x[2] == "buffers" for x in mir.walk_expr(sz)) and \
+                any(x[0] == "len" or (x[0] == "call" and x[1].endswith("::len")) for x in mir.walk_expr(sz))
+            okk = sv == "FieldAddedToNewChunk" and checked and from_buf
             R.check(okk, b.key, "row " + row, "step for %s must be FieldAddedToNewChunk{size: len(buffers[v]).try_into()?}, "
                     "found %s" % (variant, show(stepv) if stepv else None), None, sample={"row": row, "step": sv})
         elif row == "FieldMadeOptional/pos":
@@ -1236,25 +1260,34 @@ def record_writer(an, rep):
     b = core.find("AdtSerializer<Output>::finish")
     if b:
         rows = set()
+        order_ok = False
         for p in walk.walk(b, core):
             kind, what = outcome_of(p)
             if kind == "errprop":
                 continue
-            ks = [c[2] for c in sig_calls(p) if c[2].startswith("AdtSerializer")]
-            if ks == ["AdtSerializer<Output>::write_evolution_header", "AdtSerializer<Output>::write_ordered_chunks"]:
+            hdr = called_exact(p, "AdtSerializer<Output>::write_evolution_header")
+            wbytes = [c for c in p.calls() if c[3] == "BinaryOutput::write_bytes"]
+            other_w = [c for c in sig_calls(p) if c[3].startswith("BinaryOutput::write_") and c[3] != "BinaryOutput::write_bytes"]
+            if hdr:
                 rows.add("evolved")
-            elif not ks and not [c for c in sig_calls(p) if "write_" in c[2]]:
+                R.check(not other_w and all(p.events.index(hdr[0]) < p.events.index(w) for w in wbytes), b.key, "header first",
+                        "finish() must emit the header before the chunks")
+                # the chunks: a loop over self.buffers in index order, one write_bytes per buffer
+                looped = p.outcome[0] == "loopback" or any(e[0] == "loop" for e in p.events)
+                if looped and len(wbytes) == 1:
+                    srcs = [show(c[5][0]) for c in p.calls() if c[3] in ("IntoIterator::into_iter",) or c[2].endswith("::iter")]
+                    adapters = [c[3] for c in p.calls() if c[3].startswith("Iterator::") and c[3] not in
+                                ("Iterator::next", "Iterator::map", "Iterator::for_each", "Iterator::try_for_each", "Iterator::by_ref")]
+                    if any("buffers" in s_ for s_ in srcs) and not adapters:
+                        order_ok = True
+            elif not wbytes and not other_w:
                 rows.add("v0")
             else:
-                R.fail(b.key, "finish", "finish() does %s" % ks)
+                R.fail(b.key, "finish", "finish() writes %s without the header" % [c[2] for c in wbytes + other_w])
         R.check(rows == {"evolved", "v0"}, b.key, "rows", "rows: %s" % sorted(rows), None, sample={"finish": sorted(rows)})
-    b = core.find("AdtSerializer<Output>::write_ordered_chunks")
-    if b:
-        ps = walk.walk(b, core)
-        okk = any(p.outcome[0] == "loopback" and len(called(p, "BinaryOutput::write_bytes")) == 1 for p in ps)
-        src = [show(c[5][0]) for p in ps for c in called(p, "<I as IntoIterator>::into_iter", "IntoIterator::into_iter")]
-        R.check(okk and any("buffers" in s for s in src), b.key, "chunks in order", "chunks must be written by iterating "
-                "`buffers` in index order", None, sample={"write_ordered_chunks": "for buffer in &self.buffers: write_bytes"})
+        R.check(order_ok, b.key, "chunks in order", "after the header the chunks must be written by iterating `buffers` in "
+                "index order (one write_bytes per buffer, no reordering adapter)", None,
+                sample={"finish": "header; for buffer in buffers: write_bytes"})
     b = core.find("AdtSerializer<Output>::record_field_index")
     if b:
         rows = set()
@@ -1267,6 +1300,10 @@ def record_writer(an, rep):
                     v = walk.atom_variant(a)
             ins = [c for c in sig_calls(p) if c[2].endswith("::insert")]
             pos = [c for c in called(p, "FieldPosition::new")]
+            if v == "Occupied":
+                v = "Some"
+            elif v == "Vacant":
+                v = "None"
             if v == "Some":
                 rows.add("next")
                 okk = len(pos) == 1 and "Add" in show(pos[0][5][1]) and arg_named(pos[0][5][0], "chunk")
@@ -1274,7 +1311,10 @@ def record_writer(an, rep):
                         [show(a) for a in pos[0][5]] if pos else None, None, sample={"record_field_index": "(chunk, last+1)"})
             elif v == "None":
                 rows.add("first")
-                okk = len(pos) == 1 and guards.rng(pos[0][5][1]) == (0, 0) and arg_named(pos[0][5][0], "chunk")
+                first = strip_refs(pos[0][5][1]) if len(pos) == 1 else ("unk",)
+                zero = guards.rng(first) == (0, 0) or (first[0] == "call" and first[1].endswith("::insert") and
+                                                       guards.rng(first[3][-1]) == (0, 0))
+                okk = len(pos) == 1 and zero and arg_named(pos[0][5][0], "chunk")
                 R.check(okk, b.key, "first position", "the first field of a chunk must get position 0")
         R.check(rows == {"first", "next"}, b.key, "rows", "rows: %s" % sorted(rows))
     return R
